@@ -205,11 +205,31 @@ package classifier
 //@ spec okMR(m *matchRange, tn int) bool = m != nil && 0 <= m.SrcStart && 0 <= m.TargetStart && m.TargetStart < m.TargetEnd && m.TargetEnd <= tn
 //@ spec okMRs(ms matchRanges, tn int) bool = forall k int :: 0 <= k && k < len(ms) ==> okMR(ms[k], tn)
 //@
+//@ // C01 (q-gram index is complete): add appends one range to the list kept
+//@ // for the checksum - also when that q-gram was seen before - and leaves the
+//@ // other lists alone; generateHashes calls it exactly once per q-gram position
+//@ // of the document, for that position and the checksum computed for it.
 //@ func (hash).add
-//@   inline
+//@   requires h != nil
+//@   ensures [appends-one] (checksum in h) && len(h[checksum]) == old(ite((checksum in h), len(h[checksum]), 0)) + 1
+//@   ensures [appends-one] h[checksum][len(h[checksum])-1] != nil && fresh(h[checksum][len(h[checksum])-1]) && h[checksum][len(h[checksum])-1].Start == start && h[checksum][len(h[checksum])-1].End == end
+//@   ensures [appends-one] forall j int :: 0 <= j && j + 1 < len(h[checksum]) ==> h[checksum][j] == old(h[checksum][j])
+//@   ensures forall c uint32 :: c != checksum ==> ((c in h) <==> old(c in h)) && same(h[c], old(h[c]))
+//@   ensures fresh(h[checksum]) || ref(h[checksum]) == old(ref(h[checksum]))
+//@   ensures len(h) >= old(len(h))
+//@   modifies entries(h), elems(h[checksum])
+//@   props C10 C17 C01
 //@
+//@ ghostvar addsG int
 //@ func generateHashes
 //@   requires h != nil && dict != nil && q >= 0 && len(h) == 0
+//@   ensures [every-qgram-indexed] q > 0 ==> addsG == ite(len(toks) >= q, len(toks) - q + 1, 0) && len(result0) == addsG
+//@   ensures [every-qgram-indexed] forall o int :: 0 <= o && o < len(result1) ==> result1[o].Start == o && result1[o].End == o + q
+//@   ghostset addsG = 0 atentry
+//@   ghostset addsG = addsG + 1 after add
+//@   callreq add requires arg_start == offset && arg_end == offset + q && arg_checksum == cs && css[offset] == cs
+//@   loop 1 invariant len(css) == offset && addsG == offset
+//@   loop 1 invariant forall o int :: 0 <= o && o < offset ==> tr[o].Start == o && tr[o].End == o + q
 //@   ensures len(result0) == len(result1)
 //@   ensures forall i int :: 0 <= i && i < len(result1) ==> okTR(result1[i], len(toks))
 //@   ensures okHash(h, len(toks))
@@ -454,10 +474,18 @@ package classifier
 //@   modifies nothing
 //@   props C10 C09 C04
 //@
+//@ // C11: a token that starts with a digit is cleaned to a text that does not
+//@ // end in a period, however many it had: cleaning is idempotent on it, so the
+//@ // word Normalize writes is tokenised to itself again (numericG: the digit
+//@ // branch was taken)
+//@ ghostvar numericG bool
 //@ func cleanupToken
+//@   ghostset numericG = false atentry
+//@   ghostset numericG = result after IsDigit#1
+//@   ensures [numeric-no-trailing-period @C11] numericG ==> !hasSuffix(result, ".")
 //@   modifies nothing
 //@   loop 2 decreases len(res)
-//@   props C10 C09 C04
+//@   props C10 C09 C04 C11
 //@
 //@ func flushBuf
 //@   requires wfDict(ld)
@@ -467,7 +495,20 @@ package classifier
 //@
 //@ spec pseudo(m *Match, line int) bool = m != nil && m.Name == "Copyright" && m.MatchType == "Copyright" && m.Confidence == 1.0 && m.StartLine == line && m.EndLine == line
 //@
+//@ // C06: a non-empty line is tokenised only after every ignorable-text
+//@   // expression has been tried on it and none matched; as soon as one matches
+//@   // the line becomes a Copyright pseudo-match (whatever its length)
+//@ ghostvar reTriedG int
+//@ ghostvar reHitG bool
 //@ func stringifyLineBuf
+//@   ghostset reTriedG = 0 atentry
+//@   ghostset reHitG = false atentry
+//@   ghostset reTriedG = reTriedG + 1 after MatchString
+//@   ghostset reHitG = reHitG || result after MatchString
+//@   callreq MatchString requires re == ignorableTexts[reTriedG]
+//@   ensures [every-ignorable-tried] len(in) > 0 && result1 == nil ==> reTriedG == len(ignorableTexts) && !reHitG
+//@   ensures [every-ignorable-tried] reHitG ==> result1 != nil
+//@   loop 2 invariant reTriedG == rangeindex + 1 && !reHitG
 //@   requires dict != nil && ld != nil && (updateDict ==> wfDict(dict))
 //@   ensures result1 != nil ==> result0 == nil && fresh(result1) && pseudo(result1, line)
 //@   ensures forall i int :: 0 <= i && i < len(result0) ==> result0[i].Line == line
@@ -618,6 +659,8 @@ package classifier
 //@   modifies nothing
 //@   props C03 C04 C10
 //@
+//@ ghostvar scoredOKG int
+//@ ghostvar passedG int
 //@ func (*Classifier).match
 //@   requires wfClassifier(c) && 0.0 <= c.threshold && c.threshold <= 1.0
 //@   ensures result1 != nil ==> len(result0.Matches) == 0
@@ -628,6 +671,19 @@ package classifier
 //@   ensures [lines-inside-input] result0.TotalInputLines <= 1 + nlSeen && (forall i int :: 0 <= i && i < len(result0.Matches) ==> result0.Matches[i].EndLine <= 1 + nlSeen)
 //@   modifies nothing
 //@   ghostset lastScore = result0 after score
+//@   // C04/C01: the first pass admits exactly the documents whose token
+//@   // similarity reaches the threshold - nothing else (tracing, earlier calls)
+//@   // decides it: the first-pass map has one entry per such document visited
+//@   ghostset passedG = 0 atentry
+//@   ghostset passedG = passedG + ite(result >= c.threshold, 1, 0) after tokenSimilarity
+//@   loop 1 invariant len(firstPass) == passedG && (forall l string :: (l in firstPass) ==> visited(l))
+//@   // C01: every scored range that reaches the threshold with a non-empty
+//@   // trimmed span becomes a candidate (and nothing else does): the candidate
+//@   // list holds the pseudo-matches plus one entry per such score
+//@   ghostset scoredOKG = 0 atentry
+//@   ghostset scoredOKG = scoredOKG + ite(result0 >= c.threshold && arg_unknownEnd - arg_unknownStart - result1 - result2 > 0, 1, 0) after score
+//@   loop 2 invariant len(candidates) == len(pseudoMs) + scoredOKG
+//@   loop 3 invariant len(candidates) == len(pseudoMs) + scoredOKG
 //@   ghostset pseudoMs = result0.Matches after tokenizeStream
 //@   ghostset candsG = candidates after Sort
 //@   // what does hold (and pins the known finding down): a candidate that shares
